@@ -12,5 +12,5 @@ print(lines[0])
 for l in lines[1:st+2]: print(l)
 PY
 sed -e 's/^Definition R := .*//' -e 's/^Print R.//' $d/cases_$sh.v > $d/dbg.v
-echo "Definition D := Eval vm_compute in dbg (nth $ci cases (Build_case (c_cfg (nth 0 cases (Build_case (Build_cfg 0 false 0 0 0 false 0 false 0 0 0) 0%Z [])) ) 0%Z [])) $st. Print D." >> $d/dbg.v
+echo "Definition D := Eval vm_compute in dbg (nth $ci cases (Build_case (Build_cfg 0 false 0 0 0 false 0 false 0 0 0) 0%Z [] [])) $st. Print D." >> $d/dbg.v
 (cd $d && coqc -R /verif/coq Verif dbg.v 2>&1 | tail -60)
